@@ -259,3 +259,23 @@ def upper_bound_guards(body, value_local):
         big_t, small_t = (t_true, t_false) if big_when_true else (t_false, t_true)
         out.append((bi, big_t, small_t, other_op))
     return out
+
+
+def peel_refs(body, l, depth=6):
+    """local that a chain of borrows / reborrows / copies of references ultimately points at"""
+    for _ in range(depth):
+        sd = body.single_def(l) if l is not None else None
+        if not sd or sd[2] != "assign":
+            return l
+        rv = sd[3][2]
+        if rv[0] in ("ref", "rawptr"):
+            pl = rv[2] if rv[0] == "ref" else rv[1]
+            if all(p == "*" for p in pl[1]):
+                l = pl[0]
+                continue
+            return l
+        if rv[0] == "use" and rv[1][0] in ("c", "m") and all(p == "*" for p in rv[1][1][1]) and body.local_ty(l).startswith("&"):
+            l = rv[1][1][0]
+            continue
+        return l
+    return l
